@@ -83,8 +83,8 @@ def run(ctx):
 
     # Trace_Broadcast is run depth-first with the "invariant" NotDone: TLC stops at the first path that consumes the
     # whole trace (accepted). A run that ends without reaching the end of the trace is a rejection.
-    def validate(tp, cfg, cfg_text, label):
-        r = ctx.tlc(SPEC, "Trace_Broadcast", cfg=cfg, cfg_text=cfg_text, mode="bfs", workers=1, timeout=ctx.pick(900, 3000),
+    def validate(tp, cfg, cfg_text, label, module="Trace_Broadcast"):
+        r = ctx.tlc(SPEC, module, cfg=cfg, cfg_text=cfg_text, mode="bfs", workers=1, timeout=ctx.pick(900, 3000),
                     dump_trace=False, label=label, expect=("ok", "violation"), files={"trace.ndjson": tp}, view_queue=True)
         if r.violated == "NotDone":
             with lock:
@@ -129,7 +129,7 @@ def run(ctx):
         if go.rc != 0 or not go.reports:
             return res
         tp = ctx.trace_path(go, "trace_filter")
-        ok, tr = ctx.validate_trace(SPEC, "Trace_DupFilter", tp, cfg="Trace_DupFilter", label="Trace_DupFilter")
+        ok, tr = validate(tp, "Trace_DupFilter", None, "Trace_DupFilter", module="Trace_DupFilter")
         res["traces"].append(("trace_filter", tp, ok, tr))
         return res
 
